@@ -217,6 +217,8 @@ def _bounded_known(bad, case, my_findings, qual):
 
 def vname(q, v):
     n = q.split("::")[1]
+    if "." not in n:
+        n = "%s:%s" % (q.split("::")[0].replace("xgi/", "").replace(".py", "").replace("/", "."), n)
     if v:
         n += "[" + ",".join("%s=%s" % kv for kv in sorted(v.items())) + "]"
     return n
@@ -274,18 +276,33 @@ def run_property(pid, tier="quick", seed=0, extra=None):
     results = {}
     errors = []
     solver_secs = 0.0
-    farm = Farm(16, deadline=100 if tier == "quick" else 1200)
+    slow = max([getattr(REGISTRY[q], "timeout_ms", 0) or 0 for q, v in tasks] + [0])
+    farm = Farm(16, deadline=max(100, 4 * slow // 1000) if tier == "quick" else 1200)
     # bounded stand-in: the same contracts evaluated on the real code over small inputs
     blimit = 30 if tier == "quick" else 400
     for q, v in tasks:
         farm.submit(_bounded_task, (q, v, [pid], blimit, seed), tag=("bounded",))
     # ground mode first (counter-models in milliseconds); an obligation refuted there is not
     # re-solved with quantifiers
-    gres = explore(farm, tasks, pid, timeout_ms, kq if tier == "quick" else 5, "g")
+    gtasks = [(q, v) for q, v in tasks if not (tier == "quick" and getattr(REGISTRY[q], "skip_ground_quick", False))]
+    gres = explore(farm, gtasks, pid, timeout_ms, kq if tier == "quick" else 5, "g")
     bres = gres.pop("__bounded__", [])
     skipmap = {key: {(o["name"], o["clause"]) for o in r["obligations"] if o["status"] == "refuted"} for key, r in gres.items()}
     results = explore(farm, tasks, pid, timeout_ms, kq, "q", skipmap)
     bres += results.pop("__bounded__", [])
+    # escalation: obligations left open by the unbounded attempt and not refuted at scope kq are
+    # searched again for a counter-model in a larger finite universe before being called undecided
+    open_tasks = []
+    for key, r in results.items():
+        refd = skipmap.get(key, set())
+        if any(o["status"] != "discharged" and (o["name"], o["clause"]) not in refd and pid in o["props"] for o in r["obligations"]):
+            open_tasks.append((r["qual"], r["variant"]))
+    if open_tasks:
+        g2 = explore(farm, open_tasks, pid, timeout_ms, 6, "g")
+        g2.pop("__bounded__", None)
+        for key, r in g2.items():
+            base = gres.setdefault(key, dict(qual=r["qual"], variant=r["variant"], obligations=[], error=None))
+            base["obligations"] = list(base["obligations"]) + [o for o in r["obligations"] if o["status"] == "refuted"]
 
     obligations, discharged, undecided, refuted = [], [], [], []
     unsupported = []
